@@ -6,6 +6,7 @@ import (
 	"io"
 	logslog "log/slog"
 	"os"
+	"slices"
 	"strconv"
 	"strings"
 	"sync"
@@ -969,7 +970,9 @@ func (s *Entry) Errorf(format string, a ...interface{}) error {
 //
 
 func (s *Entry) WriteThru(ctx context.Context, lvl Level, timestamp time.Time, stackFrame uintptr, msg string, attrs Attrs) {
-	s.print(ctx, lvl, timestamp, stackFrame, msg, attrs)
+	// serializeAttrs sorts and dedupes in place: work on a copy, the list
+	// is the caller's and may be shared with other goroutines.
+	s.print(ctx, lvl, timestamp, stackFrame, msg, slices.Clone(attrs))
 }
 
 func (s *Entry) WriteInternal(ctx context.Context, lvl Level, stackFrame uintptr, buf []byte) (n int, err error) {
